@@ -699,6 +699,17 @@ func TestC12(t *testing.T) {
 		invalidCase{Conv: "PFormatOrder", Level: "conv", Line: "output:format function", Level2: "conv", Line2: "extend ConvLast"},
 		invalidCase{Conv: "PFormatOrder", Level: "conv", Line: "output:format function", Level2: "cli", Line2: "extend ConvLast"},
 	)
+	// settings of the generated struct have nothing to apply to when the output is functions
+	for _, line := range []string{"name Foo", "struct:comment hello"} {
+		for _, fl := range []string{"cli", "conv"} {
+			for _, ll := range []string{"cli", "conv"} {
+				if fl == "conv" && ll == "cli" {
+					continue // -g lines are read first: the format would not be known yet
+				}
+				inv = append(inv, invalidCase{Conv: "PWrapErrors", Level: ll, Line: line, Level2: fl, Line2: "output:format function"})
+			}
+		}
+	}
 	for _, l1 := range []string{"cli", "conv", "method"} {
 		for _, l2 := range []string{"cli", "conv", "method"} {
 			rank := map[string]int{"cli": 0, "conv": 1, "method": 2}
